@@ -343,6 +343,8 @@ func Guard(watchdog time.Duration, f func(ctx context.Context) error) CallOutcom
 			stuck++
 		} else if ClientSyncStuck(d) {
 			stuck++
+		} else if blockedOnNilChannel(d) {
+			stuck++
 		}
 		select {
 		case r := <-ch:
@@ -381,6 +383,22 @@ func Environmental(err error) bool {
 	s := strings.ToLower(err.Error())
 	for _, m := range []string{"server selection", "timeout", "timed out", "deadline exceeded", "connection refused", "connection reset", "broken pipe", "did not become ready", "address already in use", "eof"} {
 		if strings.Contains(s, m) {
+			return true
+		}
+	}
+	return false
+}
+
+// blockedOnNilChannel: some goroutine running orda code waits on a nil channel - the Go runtime
+// itself marks such a goroutine "(nil chan)"; it can never be woken, so whoever waits for it
+// (the call under the watchdog) waits for good.
+func blockedOnNilChannel(dump string) bool {
+	for _, g := range strings.Split(dump, "\n\n") {
+		nl := strings.IndexByte(g, '\n')
+		if nl < 0 {
+			continue
+		}
+		if strings.Contains(g[:nl], "(nil chan)") && strings.Contains(g[nl:], "github.com/orda-io/orda/") {
 			return true
 		}
 	}
